@@ -660,6 +660,12 @@ impl Mp4TrackWriter {
                 if avc_config.seq_param_set.len() < 4 {
                     return Err(Error::InvalidData("sequence parameter set is too short"));
                 }
+                // avcC stores each parameter set behind a 16-bit length.
+                if avc_config.seq_param_set.len() > u16::MAX as usize
+                    || avc_config.pic_param_set.len() > u16::MAX as usize
+                {
+                    return Err(Error::InvalidData("parameter set is too long"));
+                }
                 trak.tkhd.set_width(avc_config.width);
                 trak.tkhd.set_height(avc_config.height);
 
